@@ -1057,11 +1057,13 @@ def register(case: Case, built: Built, ctx, record=None, edits=None, order=None)
             ctx.delete_at(blk, off, ln, retarget_to_proxy=ed.proxy)
 
 
-def rewrite(case: Case, built: Built, record=None, order=None):
+def rewrite(case: Case, built: Built, record=None, order=None, pre_apply=None):
     import gtirb_rewriting
 
     ctx = gtirb_rewriting.RewritingContext(built.module, functions_of(built.module))
     register(case, built, ctx, record, order=order)
+    if pre_apply is not None:
+        pre_apply(ctx, built)
     ctx.apply()
 
 
@@ -1071,10 +1073,11 @@ def rewrite(case: Case, built: Built, record=None, order=None):
 class Observed:
     """Section-relative view of a module after rewriting."""
 
-    def __init__(self, built: Built):
+    def __init__(self, built: Built, skip_intervals=()):
         import gtirb
 
         self.built = built
+        self.skipped = set(skip_intervals)
         m = built.module
         self.sec_bytes = []
         self.base = {}      # byte interval -> section-relative base
@@ -1093,6 +1096,8 @@ class Observed:
             ivs = sorted(sec.byte_intervals, key=lambda bi: (bi.address if bi.address is not None else 1 << 62))
             prev_end = None
             for bi in ivs:
+                if bi in self.skipped:
+                    continue
                 if bi.address is None:
                     self.problems.append(f"interval without address in {name}")
                 if prev_end is not None and bi.address is not None and bi.address < prev_end:
@@ -1148,7 +1153,7 @@ class Run:
     pass
 
 
-def execute(spec, *, allow_after_full_delete=False, record=None) -> Run:
+def execute(spec, *, allow_after_full_delete=False, record=None, pre_apply=None, skip_intervals=None) -> Run:
     r = Run()
     r.case = Case(spec, allow_after_full_delete=allow_after_full_delete)
     r.exp = Expected(r.case)
@@ -1159,10 +1164,10 @@ def execute(spec, *, allow_after_full_delete=False, record=None) -> Run:
         return r
     r.built = build(r.case)
     try:
-        rewrite(r.case, r.built, record)
+        rewrite(r.case, r.built, record, pre_apply=pre_apply)
     except Exception as e:  # judged by the caller
         r.error = e
-    r.obs = Observed(r.built) if r.error is None else None
+    r.obs = Observed(r.built, skip_intervals() if skip_intervals else ()) if r.error is None else None
     return r
 
 
